@@ -206,10 +206,17 @@ class SpawnIsalive(Contract):
         if 'peer' in v.g and getattr(v, 'label', None) is not None:
             from .readpath import env_step
             v.envc = env_step(v)
+        if 'clk' in v.g and getattr(v, 'label', None) is not None:
+            # ptyprocess: a non-blocking status check, EXCEPT after EOF was seen (flag_eof): then it waits for the
+            # child to exit, however long that takes
+            v.dt = v.draw(T.Real, 'dt')
+            v.g['clk'] = v.g['clk'] + v.dt
 
     def ensures(self, v):
         old, new = v.old.self, v.new.self
         out = pty_base(v)
+        if getattr(v, 'dt', None) is not None:
+            out.append(('time', And(v.dt >= 0, Implies(Or(Not(old.ptyproc.flag_eof), old.ptyproc.terminated), eq(v.dt, 0)))))
         if getattr(v, 'envc', None) is not None:
             out.append(('env', v.envc))
             if v.label == 'dead':
